@@ -82,6 +82,11 @@ func genEnv(r *simhook.Rand, maxMasters int) world.RedisCfg {
 	if r.Chance(1, 6) {
 		env.BufCap = []int{1, 16, 256, 4096}[r.Intn(4)]
 	}
+	if r.Chance(1, 4) {
+		// compression on: the backend writer runs the filter chain, and APPEND (part of the traffic mix) is answered
+		// by a filter instead of a backend - one more party that completes requests while connections fail
+		env.Compression = &world.Compression{Enable: true, Threshold: []uint32{1, 4, 64}[r.Intn(3)]}
+	}
 	return env
 }
 
